@@ -32,7 +32,9 @@ type injection struct {
 
 // injections places one ungeneratable element at every kind of position, depth 1..3.
 func injections(bad sgen.M, kind string) []injection {
-	obj := func(p sgen.M) sgen.M { return sgen.M{"type": "object", "properties": sgen.M{"ok": sgen.M{"type": "string"}, "bad": p}} }
+	obj := func(p sgen.M) sgen.M {
+		return sgen.M{"type": "object", "properties": sgen.M{"ok": sgen.M{"type": "string"}, "bad": p}}
+	}
 	arr := func(p sgen.M) sgen.M { return sgen.M{"type": "array", "items": p} }
 	root := func(p sgen.M, defs sgen.M) sgen.M {
 		s := sgen.M{"$id": "urn:c18", "type": "object", "properties": sgen.M{"a": sgen.M{"type": "integer"}, "p": p}}
@@ -113,7 +115,7 @@ func init() {
 			"null-property": `{"type":"object","properties":{"a":null}}`, "null-definition": `{"type":"object","$defs":{"A":null}}`, "null-branch": `{"type":"object","allOf":[null]}`,
 			"null-items": `{"type":"object","properties":{"a":{"type":"array","items":null}}}`, "items-list": `{"type":"object","properties":{"a":{"type":"array","items":[{"type":"string"}]}}}`,
 			"binary": "\x00\x01\x02\xff\xfe", "yaml-in-json": "type: object\nproperties:\n  a: {type: string}\n", "trailing-garbage": `{"type":"object"} xyz`,
-			"deep-nesting": strings.Repeat(`{"type":"object","properties":{"a":`, 200) + `{"type":"string"}` + strings.Repeat(`}}`, 200),
+			"deep-nesting":  strings.Repeat(`{"type":"object","properties":{"a":`, 200) + `{"type":"string"}` + strings.Repeat(`}}`, 200),
 			"self-ref-root": `{"type":"object","properties":{"a":{"$ref":"#"}}}`, "ref-cycle-defs": `{"type":"object","properties":{"a":{"$ref":"#/$defs/A"}},"$defs":{"A":{"$ref":"#/$defs/B"},"B":{"$ref":"#/$defs/A"}}}`,
 			"no-root-type": `{"$defs":{"A":{"type":"string"}}}`, "type-list-3": `{"type":["string","integer","null"]}`,
 		}
